@@ -146,7 +146,7 @@ impl Monitor for LiquidityMonitor {
                     }
                 }
             }
-            Op::Swap { .. } | Op::SwapBack { .. } => {
+            Op::Swap { .. } | Op::SwapBack { .. } | Op::SwapExact { .. } => {
                 if let Some(o) = &r.outcome {
                     for s in &o.steps {
                         if let Some(t) = s.crossed_initialized_tick {
